@@ -175,7 +175,17 @@ def worker_main(a):
                 out["harness_errors"].append(
                     "faults() run %d: %s" % (i, traceback.format_exc()[-2000:]))
                 flist = []
+            cap = cfg.get("max_faults_per_scenario", 1500)
+            if len(flist) > cap:
+                # an unusually expensive scenario: keep the positions evenly spread (and say so
+                # in the evidence) instead of letting one scenario eat the whole budget
+                step = len(flist) / float(cap)
+                flist = [flist[int(j * step)] for j in range(cap)]
+                out["subsampled_scenarios"] = out.get("subsampled_scenarios", 0) + 1
             for f in flist:
+                if time.time() > deadline + a.deadline * 0.5:
+                    out["stopped_early"] = True
+                    break
                 faulthandler.dump_traceback_later(a.run_timeout, exit=True)
                 try:
                     cf, chf, vf = run_world(prop, list(ch.values), a.tier, cfg, f, replay=True)
@@ -447,6 +457,8 @@ def check_main(a):
                 "exhaustive_inner_loops": bool(getattr(prop, "EXHAUSTIVE_INNER", False)),
                 "workers": nworkers,
                 "stopped_at_wall_cap": stopped,
+                "scenarios_with_subsampled_fault_positions": sum(
+                    r.get("subsampled_scenarios", 0) for r in results),
                 "known_findings_hit": {k: c for k, (_, c) in known_hit.items()},
                 "source_tree": src_dir(),
             },
